@@ -50,7 +50,7 @@ PROP = dict(
         "the profile as the converters see it (factory fields: name, units, base type, array, scale/offset bits, component targets, sub-fields and their maps; MesgNum.String(); the reader's mesgNumLookup / fieldNumLookup through the verif hooks) is printed from the compiled packages on every run (Generated/CsvProfile.lean)",
         "text layer: decimal integers (strconv.FormatInt/FormatUint/Itoa, ParseInt/ParseUint base 0 with bit sizes 8..64), writeCell quoting, the value cells, lines, header, the padding pass and encoding/csv (record by record, settings of NewCSVToFITConv) are MODELLED (FitModel/CsvText.lean) and tied byte for byte by the families csvtext / csvparse; still assumed: float text (strconv.FormatFloat / ParseFloat: the explicit hypothesis FloatOK of C19_roundtrip_text / C19_columns_text), unicode.IsPrint beyond ASCII (bytes >= 0x80 are taken as parts of printable runes), base prefixes / '_' separators of ParseInt base 0 (unmodelled, never written by FormatInt)",
         "the arithmetic of the scaled mode is a parameter of the model, instantiated by Arith.so = kit/scaleoffset + fitcsv.parseValue over the bit-exact binary64 of FitModel/F64.lean (the definitions of C12); the driver runs it and the `csvarith` operations compare it with fitcsv.VerifFormat / VerifParseValue on every (base type, scale, offset) of the profile; C12_csv discharges the round-trip hypothesis for every scaled profile field (integer types up to 32 bits; no 64-bit field of the profile is scaled)",
-        "degrees option: ToSemicircles(ParseFloat(format(ToDegrees(s)))) is taken to be s (Arith.so.degrees; exact in binary64: s*(180/2^31) has at most 37 significant bits, the quotient by the same constant is s) — compared with the implementation on every run (positions incl. extremes and the invalid value)",
+        "degrees option: ToSemicircles(ToDegrees(s)) is computed over the same binary64 model (FitModel/TimeAngle.lean) and is the identity on every int32 pattern by C12_semicircles; the float text in between is assumed as for every float; compared with the implementation on every run (positions incl. extremes and the invalid value)",
         "text layer assumed, in particular: the text of a scaled value contains a '.' (true for x.0 and for every mantissa of more than one digit; a one-digit mantissa with exponent below -4 such as 1e-05 has none — not produced by any (scale, raw) of the profile)",
         "encoder and decoder between the two converters are those of C01/C10; the family feeds messages that are a fixed point of encode→decode; the encoder's validator is modelled as far as it decides success (gateSeq) and proved to pass (C19_roundtrip_convert)",
     ],
